@@ -143,6 +143,22 @@ func runC14Name(nameIdx int) (string, []explore.Violation) {
 			if _, err := w.P[2].DB.Open(bg, a0.String(), &orbitdb.CreateDBOptions{LocalOnly: boolp(true), Replicate: boolp(false)}); err == nil {
 				bad("local-only-open-of-unknown-database-succeeded", "")
 			}
+			// ... whatever else the options say (Create is meaningless for an address), and through the typed openers
+			if _, err := w.P[2].DB.Open(bg, a0.String(), &orbitdb.CreateDBOptions{LocalOnly: boolp(true), Create: boolp(true), Replicate: boolp(false)}); err == nil {
+				bad("local-only-open-of-unknown-database-succeeded:create-set", "")
+			}
+			var terr error
+			switch typ {
+			case "eventlog":
+				_, terr = w.P[2].DB.Log(bg, a0.String(), &orbitdb.CreateDBOptions{LocalOnly: boolp(true), Replicate: boolp(false)})
+			case "keyvalue":
+				_, terr = w.P[2].DB.KeyValue(bg, a0.String(), &orbitdb.CreateDBOptions{LocalOnly: boolp(true), Replicate: boolp(false)})
+			case "docstore":
+				_, terr = w.P[2].DB.Docs(bg, a0.String(), &orbitdb.CreateDBOptions{LocalOnly: boolp(true), Replicate: boolp(false)})
+			}
+			if terr == nil {
+				bad("local-only-open-of-unknown-database-succeeded:typed-opener", typ)
+			}
 			s1, err := w.P[1].DB.Open(bg, a0.String(), &orbitdb.CreateDBOptions{Replicate: boolp(false)})
 			if err != nil {
 				bad("open-on-another-peer-failed", err.Error())
@@ -271,7 +287,7 @@ func runC14Uniqueness() (string, []explore.Violation) {
 func init() {
 	explore.Register(&explore.CheckDef{
 		ID: "C14", Level: "exploration",
-		Rule:   "full cross product: 41 names (ascii, rooted and trailing-slash forms, case, spaces, nested, empty, dot and parent-directory segments, unicode, control characters, names that are or contain the manifest address of another database, 300 characters) x 3 registered types x 6 write lists (none, creator, one id, two ids in both orders, wildcard) on three peers with different identities; restricted to inputs DetermineAddress/Create accept. Oracle: same inputs give the same address on every peer; pairwise different inputs give different addresses (all pairs of the enumerated set) and never the root of an unrelated database; the printed address parses back to the same root and path; Create returns the determined address; Open on another peer yields the recorded type and the given write list; local-only open of an unknown database and Create over an existing one (also with a Directory option naming another directory) are refused, Create with overwrite succeeds; every ordered pair of 4 databases with different write lists opened through one reused options value keeps its own type and list. Non-trivial = accepted inputs other than the plain name.",
+		Rule:   "full cross product: 41 names (ascii, rooted and trailing-slash forms, case, spaces, nested, empty, dot and parent-directory segments, unicode, control characters, names that are or contain the manifest address of another database, 300 characters) x 3 registered types x 6 write lists (none, creator, one id, two ids in both orders, wildcard) on three peers with different identities; restricted to inputs DetermineAddress/Create accept. Oracle: same inputs give the same address on every peer; pairwise different inputs give different addresses (all pairs of the enumerated set) and never the root of an unrelated database; the printed address parses back to the same root and path; Create returns the determined address; Open on another peer yields the recorded type and the given write list; local-only open of an unknown database (plain, with Create set, and through the typed openers) and Create over an existing one (also with a Directory option naming another directory) are refused, Create with overwrite succeeds; every ordered pair of 4 databases with different write lists opened through one reused options value keeps its own type and list. Non-trivial = accepted inputs other than the plain name.",
 		Units:  func(tier string) []explore.Unit { return explore.ChunkUnits("c14", 16) },
 		Budget: func(tier string) float64 { return 400 },
 		RunUnit: func(c *explore.Ctx) {
